@@ -61,6 +61,21 @@ class FnInfo:
 
 
 def apply_directives(body, directives, unit):
+    # `${ifdef NAME} … ${endif}` inside a directive's text: kept only when the real body binds a local called NAME (`let [mut] NAME`).
+    # For invariants and hints about a variable that a repair introduced: on a tree without the repair the clause is dropped, and
+    # the function is judged against its contract as it stands instead of losing its anchor
+    locals_bound = set()
+    bt = body.toks
+    for q in range(body.open, body.close - 1):
+        if bt[q].kind == "ident" and bt[q].text == "let":
+            q2 = q + 1
+            if bt[q2].text == "mut":
+                q2 += 1
+            if bt[q2].kind == "ident":
+                locals_bound.add(bt[q2].text)
+    def _ifdef(v):
+        return re.sub(r"\$\{ifdef (\w+)\}(.*?)\$\{endif\}", lambda m_: m_.group(2) if m_.group(1) in locals_bound else "", v, flags=re.S)
+    directives = [(k_, _ifdef(v_)) for (k_, v_) in directives]
     rules = list(unit["rules"])
     for (key, val) in directives:
         if key == "rules":
